@@ -127,7 +127,37 @@ def pin_exact(check, prog):
                         continue
                     lits = [x for x in subterms(t) if x[0] in ('list', 'tuple') and x[1]
                             and all(y[0] == 'num' for y in x[1])]
-                    if not lits:
+                    # (a refusal that depends on the polarisation without naming
+                    # the pinned vector -- one component tested, a tolerance --
+                    # is not the exact comparison either; a test on something
+                    # *computed from* the polarisation, e.g. on the returned
+                    # fields, is not a guard on the polarisation)
+                    TESTS = ('numpy.array', 'numpy.asarray', 'numpy.isclose',
+                             'numpy.allclose', 'numpy.array_equal', 'numpy.all',
+                             'numpy.any', 'numpy.abs', 'abs', 'all', 'any',
+                             'numpy.equal', 'numpy.not_equal', 'list', 'tuple')
+
+                    def about(x):
+                        # does P reach x through tests / views only?
+                        if x == P:
+                            return True
+                        if x[0] in ('cmp', 'bool', 'un', 'bin', 'idx', 'attr', 'list',
+                                    'tuple', 'slice'):
+                            return any(about(y) for y in x[1:] if isinstance(y, tuple)
+                                       and y and isinstance(y[0], str)) or any(
+                                about(z) for y in x[1:] if isinstance(y, tuple)
+                                for z in y if isinstance(z, tuple) and z and
+                                isinstance(z[0], str))
+                        if x[0] == 'call':
+                            f = x[1]
+                            recv = f[1] if isinstance(f, tuple) and f[0] == 'attr' and \
+                                f[2] in ('all', 'any', 'values') else None
+                            if recv is not None:
+                                return about(recv)
+                            if f in TESTS:
+                                return any(about(y) for y in x[2])
+                        return False
+                    if not lits and not about(t):
                         continue
 
                     def plain(x):
